@@ -34,3 +34,181 @@ fn c01_println_then_message_starting_with_newline() {
     pb.set_message("y");
     assert_eq!(term.contents(), "log1\ny");
 }
+
+use indicatif::{MultiProgress, MultiProgressAlignment, ProgressFinish};
+
+fn multi(term: &InMemoryTerm) -> MultiProgress {
+    MultiProgress::with_draw_target(ProgressDrawTarget::term_like(Box::new(term.clone())))
+}
+
+fn member(mp: &MultiProgress, name: &str, fin: ProgressFinish) -> ProgressBar {
+    mp.add(
+        ProgressBar::with_draw_target(Some(5), ProgressDrawTarget::hidden())
+            .with_style(ProgressStyle::with_template("{prefix}:{msg}").unwrap())
+            .with_prefix(name.to_string())
+            .with_finish(fin),
+    )
+}
+
+/// C03 (F1): rows of zombies reaped *during* a println draw were cleared twice, erasing the
+/// line above the region.
+#[test]
+fn c03_println_after_two_finished_bars_dropped_keeps_earlier_output() {
+    let term = InMemoryTerm::new(10, 20);
+    let mp = multi(&term);
+    let a = member(&mp, "a", ProgressFinish::AndLeave);
+    let b = member(&mp, "b", ProgressFinish::AndLeave);
+    let c = member(&mp, "c", ProgressFinish::AndLeave);
+    a.tick();
+    b.tick();
+    c.tick();
+    b.finish();
+    drop(b);
+    a.suspend(|| {
+        use indicatif::TermLike;
+        term.write_line("T0").unwrap();
+    });
+    drop(a);
+    mp.println("L1").unwrap();
+    let s = term.contents();
+    assert!(s.starts_with("T0\n"), "suspend output erased: {s:?}");
+    assert!(s.contains("L1"), "{s:?}");
+}
+
+/// C03 (F3): text printed through a member bar below reaped rows was erased by a later clear.
+#[test]
+fn c03_bar_println_after_zombie_survives_clear() {
+    let term = InMemoryTerm::new(10, 20);
+    let mp = multi(&term);
+    let a = member(&mp, "a", ProgressFinish::AndLeave);
+    let b = member(&mp, "b", ProgressFinish::AndLeave);
+    a.tick();
+    b.tick();
+    drop(a);
+    b.println("P0");
+    mp.clear().unwrap();
+    assert!(term.contents().contains("P0"), "{:?}", term.contents());
+}
+
+/// C03 (F2): with an exhausted limiter every refused draw counted the pending zombies again;
+/// the next println erased that many lines above the region.
+#[test]
+fn c03_refused_draws_do_not_inflate_zombie_rows() {
+    let term = InMemoryTerm::new(10, 20);
+    let mp = MultiProgress::with_draw_target(ProgressDrawTarget::term_like_with_hz(Box::new(term.clone()), 1));
+    mp.println("L0").unwrap();
+    mp.println("L1").unwrap();
+    mp.println("L2").unwrap();
+    let a = member(&mp, "a", ProgressFinish::AndLeave);
+    let b = member(&mp, "b", ProgressFinish::AndLeave);
+    a.tick();
+    b.tick();
+    for _ in 0..25 {
+        a.tick(); // exhaust the limiter
+    }
+    drop(b);
+    drop(a);
+    let c = member(&mp, "c", ProgressFinish::AndLeave);
+    c.tick();
+    c.tick();
+    c.tick();
+    mp.println("L3").unwrap();
+    let s = term.contents();
+    assert!(s.starts_with("L0\nL1\nL2\n"), "log lines erased: {s:?}");
+}
+
+/// C03 (F5): under bottom alignment `clear` padded with blank rows and counted them, so the
+/// output of a suspend closure was written below the padding and erased by the redraw.
+#[test]
+fn c03_suspend_output_survives_bottom_alignment() {
+    let term = InMemoryTerm::new(10, 20);
+    let mp = multi(&term);
+    mp.set_alignment(MultiProgressAlignment::Bottom);
+    let a = member(&mp, "a", ProgressFinish::AndLeave);
+    let b = member(&mp, "b", ProgressFinish::AndLeave);
+    a.tick();
+    b.tick();
+    mp.suspend(|| {
+        use indicatif::TermLike;
+        term.write_line("out1").unwrap();
+    });
+    assert!(term.contents().contains("out1"), "{:?}", term.contents());
+}
+
+fn member2(mp: &MultiProgress, name: &str, fin: ProgressFinish) -> ProgressBar {
+    mp.add(
+        ProgressBar::with_draw_target(Some(5), ProgressDrawTarget::hidden())
+            .with_style(ProgressStyle::with_template("{prefix}:{msg}\n{prefix}+{pos}").unwrap())
+            .with_prefix(name.to_string())
+            .with_finish(fin),
+    )
+}
+
+/// C02: a reaped two-line bar was half erased when text was printed after the live region
+/// had become empty (row count applied one row too low).
+#[test]
+fn c02_zombie_rows_are_not_half_erased() {
+    let term = InMemoryTerm::new(10, 20);
+    let mp = multi(&term);
+    let a = member2(&mp, "a", ProgressFinish::WithMessage("fin".into()));
+    let b = member2(&mp, "b", ProgressFinish::AndLeave);
+    a.tick();
+    b.tick();
+    drop(a);
+    b.finish_and_clear();
+    b.println("P0");
+    let s = term.contents();
+    assert!(s == "P0" || s == "a:fin\na+5\nP0", "half-erased static rows: {s:?}");
+}
+
+/// C03: dropping a finished bar after `clear()` counted its (no longer visible) rows as zombie
+/// rows; the next clear/println erased that many printed lines.
+#[test]
+fn c03_drop_after_clear_does_not_erase_log_lines() {
+    let term = InMemoryTerm::new(10, 20);
+    let mp = multi(&term);
+    mp.println("L0").unwrap();
+    mp.println("L1").unwrap();
+    mp.println("L2").unwrap();
+    let a = member2(&mp, "a", ProgressFinish::AndLeave);
+    let b = member2(&mp, "b", ProgressFinish::AndLeave);
+    a.tick();
+    b.tick();
+    a.finish();
+    mp.clear().unwrap();
+    drop(a);
+    mp.clear().unwrap();
+    assert!(term.contents().starts_with("L0\nL1\nL2"), "{:?}", term.contents());
+}
+
+/// C02: a removed bar's row stayed on screen for ever when a finished head bar was dropped
+/// between the removal and the next draw.
+#[test]
+fn c02_removed_bar_disappears() {
+    let term = InMemoryTerm::new(10, 20);
+    let mp = multi(&term);
+    let a = member(&mp, "a", ProgressFinish::AndLeave);
+    let b = member(&mp, "b", ProgressFinish::AndLeave);
+    let c = member(&mp, "c", ProgressFinish::AndLeave);
+    a.tick();
+    b.tick();
+    b.finish();
+    mp.remove(&a);
+    drop(b);
+    c.tick();
+    assert!(!term.contents().contains("a:"), "{:?}", term.contents());
+}
+
+/// C19/C03 (F19): when no bar fits into the terminal height, the painted part of a println draw
+/// ends with the text line; it was left unterminated and the next line was appended to it.
+#[test]
+fn c19_println_with_overflowing_bar_keeps_lines_apart() {
+    let term = InMemoryTerm::new(3, 8);
+    let mp = multi(&term);
+    let a = member(&mp, "a", ProgressFinish::AndLeave);
+    a.set_message("q".repeat(30)); // 4 rows > 3
+    mp.println("log1").unwrap();
+    mp.println("log2").unwrap();
+    let s = term.contents();
+    assert!(s.starts_with("log1\nlog2"), "{s:?}");
+}
